@@ -625,12 +625,13 @@ class KeychainSqlite3(Keychain):
                 cert_name = key_name.default_cert().name
                 key_name = key_name.name
             else:
+                key_name = Name.normalize(key_name)
                 id_name = key_name[:-2]
                 cert_name = self[id_name][key_name].default_cert().name
-        elif isinstance(cert_name, Certificate):
-            cert_name = cert_name.name
-            key_name = cert_name[:-2]
         else:
+            if isinstance(cert_name, Certificate):
+                cert_name = cert_name.name
+            cert_name = Name.normalize(cert_name)
             key_name = cert_name[:-2]
         key_locator_name = sign_args.get('key_locator', None)
         if not key_locator_name:
